@@ -1827,12 +1827,22 @@ pub fn greatest() -> impl Function {
 
 /// Builds the lower `Function`
 pub fn lower() -> impl Function {
-    PartitionnedMonotonic::univariate(data_type::Text::default(), |x| x.to_lowercase())
+    // Not monotonic for the order of the strings ("B" < "a" but "b" > "a"): exact on finite sets only
+    Pointwise::univariate(
+        data_type::Text::default(),
+        data_type::Text::default(),
+        |x| x.to_lowercase(),
+    )
 }
 
 /// Builds the upper `Function`
 pub fn upper() -> impl Function {
-    PartitionnedMonotonic::univariate(data_type::Text::default(), |x| x.to_uppercase())
+    // Not monotonic for the order of the strings: exact on finite sets only
+    Pointwise::univariate(
+        data_type::Text::default(),
+        data_type::Text::default(),
+        |x| x.to_uppercase(),
+    )
 }
 
 /// Builds the char_length `Function`
